@@ -83,6 +83,9 @@ def run_crash(cases, tag):
             raise kv.Broken('kvmodel hist failed: ' + r.stderr[-1500:])
         with open(p + '.pcheck', 'w') as fh:
             subprocess.run([kv.KVMODEL, 'check', p + '.impl'], stdout=fh, stderr=subprocess.PIPE, text=True, timeout=3600)
+        # the file-system program of every Delete according to CrashDir.v (the workloads themselves, not the images)
+        with open(p + '.delprog', 'w') as fh:
+            subprocess.run([kv.KVMODEL, 'delprog', p], stdout=fh, stderr=subprocess.PIPE, text=True, timeout=3600)
     with cf.ThreadPoolExecutor(kv.NCPU) as ex:
         list(ex.map(one, paths))
     return d, paths
@@ -220,6 +223,55 @@ def p_after_append(ops):
     return []
 
 
+def canon_fs_event(hdr):
+    """an FS-tap event of a Delete in the language of CrashDir.v, or None for steps that are not part of the swap"""
+    kind, path = hdr.get('kind'), hdr.get('path', '')
+    if hdr.get('tmp') == '1' or kind not in ('create', 'rename', 'remove'):
+        return None
+
+    def nm(x):
+        if x.endswith('.log.rewrite.X'):
+            return 'T.log'
+        if x.endswith('.index.rewrite.X'):
+            return 'T.index'
+        return x
+    if kind == 'rename':
+        to = hdr.get('to', '')
+        if '.rewrite.' in to or not to:
+            return None          # the rewrite's own index written through a temporary file
+        return 'rename %s %s' % (nm(path.split(',')[0]), to)
+    if kind == 'create' and '.rewrite.' in path:
+        return None
+    return '%s %s' % (kind, nm(path))
+
+
+def delete_programs(p, impl):
+    """-> (number compared, list of mismatch texts): observed FS steps of each Delete vs delete_prog of CrashDir.v"""
+    model, case = {}, None
+    for line in open(p + '.delprog'):
+        line = line.rstrip('\n')
+        if line.startswith('case '):
+            case = line[5:]
+        elif line.startswith('delprog '):
+            f = line.split(' ', 2)
+            model[(case, int(f[1]))] = [x.strip() for x in (f[2] if len(f) > 2 else '').split(';') if x.strip()]
+    seen = {}
+    for name, img in impl.items():
+        if name.endswith('@run') or 'powerloss=' in img['header'] or 'torn' in img['header']:
+            continue
+        hdr = dict(kv_.split('=', 1) for kv_ in img['header'].split()[1:] if '=' in kv_)
+        ev = canon_fs_event(hdr)
+        if ev:
+            seen.setdefault((name.split('@')[0], int(hdr['inflight'])), []).append((int(hdr['k']), ev))
+    n, bad = 0, []
+    for key, prog in model.items():
+        obs = [e for _, e in sorted(seen.get(key, []))]
+        n += 1
+        if obs != prog:
+            bad.append('workload %s, op %d: implementation performs %s; CrashDir.delete_prog says %s' % (key[0], key[1], obs, prog))
+    return n, bad
+
+
 def durable_acks(run_ops):
     """w after each op: the largest offset bound acknowledged as durable (Sync, AutoSync publish, Close)"""
     ws, w, nxt, autosync = [], 0, 0, False
@@ -287,11 +339,16 @@ def crash_extra(pid, tier, seed, powerloss):
     known = kv.load_known()
     try:
         viol, nimg, ntorn, mism, nview = [], 0, 0, [], 0
+        nprog, progbad = 0, []
         known_hits = {}
         dist = {}
         for p in paths:
             impl = parse_impl(p + '.impl')
             model = kv.parse_out(p + '.model')
+            if not powerloss:
+                a, b = delete_programs(p, impl)
+                nprog += a
+                progbad += b
             pchk = [l for l in open(p + '.pcheck') if l.startswith('PFAIL')]
             viewfails = {}
             for l in pchk:
@@ -340,7 +397,12 @@ def crash_extra(pid, tier, seed, powerloss):
             name, op, res, mres, hdr = mism[0]
             viol.append(('corr', '# correspondence corr:%s/recovery no longer checks: the model recovers image %s differently\n# %s\n'
                                  '# op: %s\n# implementation: %s\n# model: %s\n' % (pid, name, hdr, op[:300], res, mres)))
+        if not viol and progbad:
+            viol.append(('corr', '# correspondence corr:%s/delete-programs no longer checks: the file-system steps of a Delete differ from the '
+                                 'program of coq/CrashDir.v (theorems C05_override_crash_safe / C05_drop_crash_safe / C05_rebase_overlap)\n# %s\n'
+                                 % (pid, '\n# '.join(progbad[:5]))))
         cov = dict(crash=dict(workloads=len(wl), images=nimg, torn_images=ntorn, recoveries_compared_with_model=nimg - len(viol),
+                              delete_programs_compared_with_CrashDir=nprog, delete_program_mismatches=len(progbad),
                               correspondence_mismatches=len(mism), property_failures=len(viol),
                               known_finding_hits=sorted(known_hits), image_distribution=dist,
                               rule='workloads: publish with rollover, delete in a reader segment (same base / rebase / emptied), '
